@@ -55,55 +55,137 @@ end AList
 
 /-! ## environments -/
 
-@[simp] theorem addPath_recs (e : Env) (var : Str) (x : Elem) (b : Bool) : (e.addPath var x b).recs = e.recs := rfl
-@[simp] theorem addPath_dirs (e : Env) (var : Str) (x : Elem) (b : Bool) : (e.addPath var x b).dirs = e.dirs := rfl
-@[simp] theorem addPath_vars (e : Env) (var : Str) (x : Elem) (b : Bool) : (e.addPath var x b).vars = e.vars := rfl
-@[simp] theorem removePath_recs (e : Env) (var : Str) (x : Elem) : (e.removePath var x).recs = e.recs := rfl
-@[simp] theorem removePath_dirs (e : Env) (var : Str) (x : Elem) : (e.removePath var x).dirs = e.dirs := rfl
-@[simp] theorem removePath_vars (e : Env) (var : Str) (x : Elem) : (e.removePath var x).vars = e.vars := rfl
-@[simp] theorem addPath_rec? (e : Env) (var : Str) (x : Elem) (b : Bool) (n : Name) :
-    (e.addPath var x b).rec? n = e.rec? n := rfl
-@[simp] theorem removePath_rec? (e : Env) (var : Str) (x : Elem) (n : Name) :
-    (e.removePath var x).rec? n = e.rec? n := rfl
+@[simp] theorem addPath_recs (e : Env) (var : Str) (xs : List Elem) (b : Bool) : (e.addPath var xs b).recs = e.recs := rfl
+@[simp] theorem addPath_dirs (e : Env) (var : Str) (xs : List Elem) (b : Bool) : (e.addPath var xs b).dirs = e.dirs := rfl
+@[simp] theorem addPath_vars (e : Env) (var : Str) (xs : List Elem) (b : Bool) : (e.addPath var xs b).vars = e.vars := rfl
+@[simp] theorem removePath_recs (e : Env) (var : Str) (xs : List Elem) : (e.removePath var xs).recs = e.recs := rfl
+@[simp] theorem removePath_dirs (e : Env) (var : Str) (xs : List Elem) : (e.removePath var xs).dirs = e.dirs := rfl
+@[simp] theorem removePath_vars (e : Env) (var : Str) (xs : List Elem) : (e.removePath var xs).vars = e.vars := rfl
+@[simp] theorem addPath_rec? (e : Env) (var : Str) (xs : List Elem) (b : Bool) (n : Name) :
+    (e.addPath var xs b).rec? n = e.rec? n := rfl
+@[simp] theorem removePath_rec? (e : Env) (var : Str) (xs : List Elem) (n : Name) :
+    (e.removePath var xs).rec? n = e.rec? n := rfl
 
-theorem pathOf_addPath_other (e : Env) (var var2 : Str) (x : Elem) (b : Bool) (h : var2 ≠ var) :
-    (e.addPath var x b).pathOf var2 = e.pathOf var2 := by
+/-- the loop of `execute_envPrepend` over the pieces of the value, setup direction -/
+def addAll (app : Bool) (xs old : List Elem) : List Elem :=
+  xs.foldl (fun np v => if app then PathAlg.appendL v np else PathAlg.prependL v np) old
+/-- … and unsetup direction -/
+def removeAll (xs old : List Elem) : List Elem := xs.foldl (fun np v => PathAlg.removeL v np) old
+
+theorem applyL_true (app : Bool) (xs old : List Elem) : PathAlg.applyL app true xs old = PathAlg.uniq (addAll app xs old) := by
+  simp [PathAlg.applyL, addAll]
+
+theorem applyL_false (app : Bool) (xs old : List Elem) : PathAlg.applyL app false xs old = PathAlg.uniq (removeAll xs old) := by
+  simp [PathAlg.applyL, removeAll]
+
+theorem mem_addAll (app : Bool) (xs : List Elem) : ∀ old y, y ∈ addAll app xs old ↔ y ∈ xs ∨ y ∈ old := by
+  induction xs with
+  | nil => intro old y; simp [addAll]
+  | cons x xs ih =>
+    intro old y
+    have : addAll app (x :: xs) old = addAll app xs (if app then PathAlg.appendL x old else PathAlg.prependL x old) := rfl
+    rw [this, ih]
+    cases app
+    · simp only [Bool.false_eq_true, if_false, PathAlg.prependL, List.mem_cons]
+      constructor
+      · rintro (h | h | h)
+        · exact Or.inl (Or.inr h)
+        · exact Or.inl (Or.inl h)
+        · exact Or.inr h
+      · rintro ((h | h) | h)
+        · exact Or.inr (Or.inl h)
+        · exact Or.inl h
+        · exact Or.inr (Or.inr h)
+    · simp only [if_true, PathAlg.appendL, List.mem_cons, List.mem_append, List.not_mem_nil, or_false]
+      constructor
+      · rintro (h | h | h)
+        · exact Or.inl (Or.inr h)
+        · exact Or.inr h
+        · exact Or.inl (Or.inl h)
+      · rintro ((h | h) | h)
+        · exact Or.inr (Or.inr h)
+        · exact Or.inl h
+        · exact Or.inr (Or.inl h)
+
+theorem mem_removeAll (xs : List Elem) : ∀ old y, y ∈ removeAll xs old ↔ y ∈ old ∧ y ∉ xs := by
+  induction xs with
+  | nil => intro old y; simp [removeAll]
+  | cons x xs ih =>
+    intro old y
+    have : removeAll (x :: xs) old = removeAll xs (PathAlg.removeL x old) := rfl
+    rw [this, ih]
+    simp [PathAlg.removeL]
+    constructor
+    · rintro ⟨⟨h1, h2⟩, h3⟩; exact ⟨h1, h2, h3⟩
+    · rintro ⟨h1, h2, h3⟩; exact ⟨⟨h1, h2⟩, h3⟩
+
+theorem filter_addAll (f : Elem → Bool) (app : Bool) (xs : List Elem) (hx : ∀ x ∈ xs, f x = false) :
+    ∀ old, (addAll app xs old).filter f = old.filter f := by
+  induction xs with
+  | nil => intro old; rfl
+  | cons x xs ih =>
+    intro old
+    have : addAll app (x :: xs) old = addAll app xs (if app then PathAlg.appendL x old else PathAlg.prependL x old) := rfl
+    rw [this, ih (fun y hy => hx y (List.mem_cons_of_mem _ hy))]
+    have hfx := hx x (by simp)
+    cases app <;> simp [PathAlg.appendL, PathAlg.prependL, hfx]
+
+theorem filter_removeAll (f : Elem → Bool) (xs : List Elem) (hx : ∀ x ∈ xs, f x = false) :
+    ∀ old, (removeAll xs old).filter f = old.filter f := by
+  induction xs with
+  | nil => intro old; rfl
+  | cons x xs ih =>
+    intro old
+    have : removeAll (x :: xs) old = removeAll xs (PathAlg.removeL x old) := rfl
+    rw [this, ih (fun y hy => hx y (List.mem_cons_of_mem _ hy))]
+    have hfx := hx x (by simp)
+    simp only [PathAlg.removeL, List.filter_filter]
+    apply List.filter_congr
+    intro a _
+    by_cases ha : a = x
+    · subst ha; simp [hfx]
+    · simp [ha]
+
+theorem pathOf_addPath_same (e : Env) (var : Str) (xs : List Elem) (b : Bool) :
+    (e.addPath var xs b).pathOf var = PathAlg.uniq (addAll b xs (e.pathOf var)) := by
+  simp [Env.addPath, Env.pathOf, aget_aset_same, applyL_true]
+
+theorem pathOf_removePath_same (e : Env) (var : Str) (xs : List Elem) :
+    (e.removePath var xs).pathOf var = PathAlg.uniq (removeAll xs (e.pathOf var)) := by
+  simp [Env.removePath, Env.pathOf, aget_aset_same, applyL_false]
+
+theorem pathOf_addPath_other (e : Env) (var var2 : Str) (xs : List Elem) (b : Bool) (h : var2 ≠ var) :
+    (e.addPath var xs b).pathOf var2 = e.pathOf var2 := by
   simp [Env.addPath, Env.pathOf, aget_aset_other _ _ _ _ h]
 
-theorem mem_pathOf_addPath_same (e : Env) (var : Str) (x y : Elem) (b : Bool) :
-    y ∈ (e.addPath var x b).pathOf var ↔ y = x ∨ y ∈ e.pathOf var := by
-  have : (e.addPath var x b).pathOf var =
-      PathAlg.uniq (if b then e.pathOf var ++ [x] else x :: e.pathOf var) := by
-    cases b <;> simp [Env.addPath, Env.pathOf, aget_aset_same, PathAlg.applyL, PathAlg.appendL, PathAlg.prependL]
-  rw [this, PathAlg.mem_uniq]
-  cases b <;> simp [or_comm]
+theorem mem_pathOf_addPath_same (e : Env) (var : Str) (xs : List Elem) (y : Elem) (b : Bool) :
+    y ∈ (e.addPath var xs b).pathOf var ↔ y ∈ xs ∨ y ∈ e.pathOf var := by
+  rw [pathOf_addPath_same, PathAlg.mem_uniq, mem_addAll]
 
-theorem mem_pathOf_addPath (e : Env) (var var2 : Str) (x y : Elem) (b : Bool)
-    (h : y ∈ (e.addPath var x b).pathOf var2) : (var2 = var ∧ y = x) ∨ y ∈ e.pathOf var2 := by
+theorem mem_pathOf_addPath (e : Env) (var var2 : Str) (xs : List Elem) (y : Elem) (b : Bool)
+    (h : y ∈ (e.addPath var xs b).pathOf var2) : (var2 = var ∧ y ∈ xs) ∨ y ∈ e.pathOf var2 := by
   by_cases hv : var2 = var
   · subst hv
-    rcases (mem_pathOf_addPath_same e var2 x y b).1 h with h | h
+    rcases (mem_pathOf_addPath_same e var2 xs y b).1 h with h | h
     · exact Or.inl ⟨rfl, h⟩
     · exact Or.inr h
-  · rw [pathOf_addPath_other e var var2 x b hv] at h; exact Or.inr h
+  · rw [pathOf_addPath_other e var var2 xs b hv] at h; exact Or.inr h
 
-theorem pathOf_removePath_other (e : Env) (var var2 : Str) (x : Elem) (h : var2 ≠ var) :
-    (e.removePath var x).pathOf var2 = e.pathOf var2 := by
+theorem pathOf_removePath_other (e : Env) (var var2 : Str) (xs : List Elem) (h : var2 ≠ var) :
+    (e.removePath var xs).pathOf var2 = e.pathOf var2 := by
   simp [Env.removePath, Env.pathOf, aget_aset_other _ _ _ _ h]
 
-theorem mem_pathOf_removePath_same (e : Env) (var : Str) (x y : Elem) :
-    y ∈ (e.removePath var x).pathOf var ↔ y ∈ e.pathOf var ∧ y ≠ x := by
-  have : (e.removePath var x).pathOf var = PathAlg.uniq ((e.pathOf var).filter (· != x)) := by
-    simp [Env.removePath, Env.pathOf, aget_aset_same, PathAlg.applyL, PathAlg.removeL]
-  rw [this, PathAlg.mem_uniq]; simp
+theorem mem_pathOf_removePath_same (e : Env) (var : Str) (xs : List Elem) (y : Elem) :
+    y ∈ (e.removePath var xs).pathOf var ↔ y ∈ e.pathOf var ∧ y ∉ xs := by
+  rw [pathOf_removePath_same, PathAlg.mem_uniq, mem_removeAll]
 
-theorem mem_pathOf_removePath (e : Env) (var var2 : Str) (x y : Elem)
-    (h : y ∈ (e.removePath var x).pathOf var2) : y ∈ e.pathOf var2 ∧ (var2 = var → y ≠ x) := by
+theorem mem_pathOf_removePath (e : Env) (var var2 : Str) (xs : List Elem) (y : Elem)
+    (h : y ∈ (e.removePath var xs).pathOf var2) : y ∈ e.pathOf var2 ∧ (var2 = var → y ∉ xs) := by
   by_cases hv : var2 = var
   · subst hv
-    have := (mem_pathOf_removePath_same e var2 x y).1 h
+    have := (mem_pathOf_removePath_same e var2 xs y).1 h
     exact ⟨this.1, fun _ => this.2⟩
-  · rw [pathOf_removePath_other e var var2 x hv] at h; exact ⟨h, fun e => absurd e hv⟩
+  · rw [pathOf_removePath_other e var var2 xs hv] at h; exact ⟨h, fun e => absurd e hv⟩
 
 /-! ## database -/
 
